@@ -264,10 +264,6 @@ func (e *Engine) call(fr *frame, st *State, c *ast.CallExpr, k func(st *State, r
 			})
 		})
 		return
-	case has(full, "common.CheckAlphabetWitness") && !e.Sweep:
-		// built-in contract (to be replaced by the contract of the common package)
-		e.branch(st, sx.App("W", sx.Atom("alphabetAddr")), func(st *State) { k(st, nil) }, func(st *State) { e.fault(fr, st, "alphabet witness check failed") })
-		return
 	}
 	decl := e.funcs[fn]
 	if decl == nil {
